@@ -42,7 +42,7 @@ Emit == PrintT(ToJson(Case))
 AllUnset == [f \in NameSet |-> IF kind[f] = "b" THEN "F" ELSE "-"]
 Theorems ==
   /\ WellFormedDef(Def)
-  /\ Product(1) = Assignments(Def)
+  /\ N <= 3 => Product(1) = Assignments(Def)      \* (6^N candidate functions: only for small N)
   /\ \A a \in Product(1) :
         /\ Executable(Def, a) <=> Broken(Def, a) = {}
         \* removing a clause family never makes an executable assignment non-executable
